@@ -1,8 +1,11 @@
 //! Suite `srate` (C16): which sample rate every effect believes in, through the PUBLIC API.
 //! Each added track carries one ProbeEffect that logs `init` / `on_change_sample_rate` / `dt`.
-//! ops: mgr <ibs> <sr> | add <sub|child|send> <parent idx> | rate <sr> | cb <frames>
+//! ops: mgr <ibs> <sr> | add <sub|child|send|persist> <parent idx> | drop <track idx> | rate <sr> | cb <frames>
+//! (`persist`: a sub-track built with persist_until_sounds_finish(true) that plays an endless probe sound, so it stays
+//!  alive and processed after `drop` releases its handle.)  Every scene also runs a clock at 8 ticks/s: after every
+//! callback the clock's time must be 8 x the elapsed REAL time (frames / rate in force) — C16's "clocks keep their speed".
 //! trace for `cb`:  r=<rate in force> k=<known rate of effect 0>,<…>   (effects in creation order)
-use crate::probe::{self, new_log, Log, ProbeBackend, ProbeEffectBuilder};
+use crate::probe::{self, new_log, Log, ProbeBackend, ProbeEffectBuilder, ProbeSoundData, Signal};
 use crate::runner::{run_cases, Out};
 use crate::util::*;
 use kira::track::{MainTrackBuilder, SendTrackBuilder, SendTrackHandle, TrackBuilder, TrackHandle};
@@ -19,11 +22,25 @@ pub fn gen(rng: &mut Rng, n: usize, _thorough: bool, stats: &mut Stats) -> Vec<S
 		// in the others every rate change happens right after a callback
 		let in_flight = rng.chance(1, 5);
 		let mut since_cb_adds = 0;
+		// indices (into the track table) of persisting tracks whose handle is still held
+		let mut persisting: Vec<u64> = vec![];
+		let mut ntracks = 0u64;
 		for _ in 0..rng.range(4, 16) {
-			let line = match rng.below(10) {
+			let line = match rng.below(11) {
 				0..=3 => {
 					since_cb_adds += 1;
-					format!("add {} {}", rng.pick(&["sub", "child", "child", "send"]), rng.below(4))
+					let kind = rng.pick(&["sub", "child", "child", "send", "persist"]);
+					if kind != "send" {
+						if kind == "persist" {
+							persisting.push(ntracks);
+						}
+						ntracks += 1;
+					}
+					format!("add {} {}", kind, rng.below(4))
+				}
+				10 if !persisting.is_empty() && since_cb_adds == 0 => {
+					let i = persisting.remove(rng.below(persisting.len() as u64) as usize);
+					format!("drop {}", i)
 				}
 				4 | 5 if in_flight || since_cb_adds == 0 => format!("rate {}", rng.pick(RATES)),
 				_ => {
@@ -41,7 +58,10 @@ pub fn gen(rng: &mut Rng, n: usize, _thorough: bool, stats: &mut Stats) -> Vec<S
 
 struct Scene {
 	mgr: AudioManager<ProbeBackend>,
-	tracks: Vec<TrackHandle>,
+	clock: kira::clock::ClockHandle,
+	/// real time rendered so far (seconds): sum of frames / rate in force
+	elapsed: f64,
+	tracks: Vec<Option<TrackHandle>>,
 	sends: Vec<SendTrackHandle>,
 	logs: Vec<Log>,
 	rate: u32,
@@ -61,39 +81,55 @@ pub fn run(ops: &[String]) -> Vec<String> {
 				"case" => out.put(l.clone()),
 				"mgr" => {
 					let rate = pu(tok[2]) as u32;
-					sc = Some(Scene {
-						mgr: probe::manager(
-							Capacities { sub_track_capacity: 64, send_track_capacity: 64, ..Capacities::default() },
-							pu(tok[1]) as usize,
-							rate,
-							MainTrackBuilder::new(),
-						),
-						tracks: vec![],
-						sends: vec![],
-						logs: vec![],
+					let mut mgr = probe::manager(
+						Capacities { sub_track_capacity: 64, send_track_capacity: 64, ..Capacities::default() },
+						pu(tok[1]) as usize,
 						rate,
-					});
+						MainTrackBuilder::new(),
+					);
+					let mut clock = mgr.add_clock(kira::clock::ClockSpeed::TicksPerSecond(8.0)).unwrap();
+					clock.start();
+					sc = Some(Scene { mgr, clock, elapsed: 0.0, tracks: vec![], sends: vec![], logs: vec![], rate });
 					out.put("ok");
 				}
 				"add" => {
 					let s = sc.as_mut().unwrap();
 					let log = new_log();
 					let fx = ProbeEffectBuilder { gain: 1.0, offset: 0.0, feedback: 0.0, log: log.clone() };
+					let live: Vec<usize> = (0..s.tracks.len()).filter(|i| s.tracks[*i].is_some()).collect();
 					let ok = match tok[1] {
 						"send" => s
 							.mgr
 							.add_send_track(SendTrackBuilder::new().with_effect(fx))
 							.map(|h| s.sends.push(h))
 							.is_ok(),
-						"child" if !s.tracks.is_empty() => {
-							let n = s.tracks.len();
-							let r = s.tracks[pu(tok[2]) as usize % n].add_sub_track(TrackBuilder::new().with_effect(fx));
-							r.map(|h| s.tracks.push(h)).is_ok()
+						"child" if !live.is_empty() => {
+							let i = live[pu(tok[2]) as usize % live.len()];
+							let r = s.tracks[i].as_mut().unwrap().add_sub_track(TrackBuilder::new().with_effect(fx));
+							r.map(|h| s.tracks.push(Some(h))).is_ok()
+						}
+						"persist" => {
+							// stays alive (and processed) after its handle is dropped: it keeps an endless sound
+							let r = s
+								.mgr
+								.add_sub_track(TrackBuilder::new().with_effect(fx).persist_until_sounds_finish(true));
+							match r {
+								Ok(mut h) => {
+									let _ = h.play(ProbeSoundData {
+										signal: Signal::Constant { left: 0.25, right: 0.25 },
+										length: None,
+										log: new_log(),
+									});
+									s.tracks.push(Some(h));
+									true
+								}
+								Err(_) => false,
+							}
 						}
 						_ => s
 							.mgr
 							.add_sub_track(TrackBuilder::new().with_effect(fx))
-							.map(|h| s.tracks.push(h))
+							.map(|h| s.tracks.push(Some(h)))
 							.is_ok(),
 					};
 					if ok {
@@ -102,6 +138,15 @@ pub fn run(ops: &[String]) -> Vec<String> {
 					} else {
 						out.put("limit");
 					}
+				}
+				"drop" => {
+					// release the handle of a persisting track (the generator only names those)
+					let s = sc.as_mut().unwrap();
+					let i = pu(tok[1]) as usize;
+					if i < s.tracks.len() {
+						s.tracks[i] = None;
+					}
+					out.put("ok");
 				}
 				"rate" => {
 					let s = sc.as_mut().unwrap();
@@ -113,6 +158,14 @@ pub fn run(ops: &[String]) -> Vec<String> {
 					let s = sc.as_mut().unwrap();
 					let before: Vec<usize> = s.logs.iter().map(|l| l.lock().unwrap().slices.len()).collect();
 					s.mgr.backend_mut().callback(pu(tok[1]) as usize, 2);
+					// oracle (C16): the 8 ticks/s clock has advanced by 8 x the real time rendered, whatever the rates were
+					// (the handle shows the time published at the START of the latest callback)
+					let t = s.clock.time();
+					let got = t.ticks as f64 + t.fraction;
+					if (got - 8.0 * s.elapsed).abs() > 1e-6 * (1.0 + 8.0 * s.elapsed) {
+						out.oracle_fail("clock_speed_depends_on_rate", l);
+					}
+					s.elapsed += pu(tok[1]) as f64 / s.rate as f64;
 					let ks: Vec<String> = s.logs.iter().map(|l| known(l).to_string()).collect();
 					out.put(format!("r={} k={}", s.rate, ks.join(",")));
 					// oracle (C16): every effect processed in this callback knows the rate in force, and the
